@@ -605,6 +605,12 @@ class SparselyBin(Factory, Container):
         bins = self.value.name if self.value is not None else contentType
         return f"<SparselyBin binWidth={self.binWidth} bins={bins} nanflow={self.nanflow.name}>"
 
+    def _binsType(self):
+        # what toJson writes as "bins:type": an empty container still says what its bins would hold
+        if len(self.bins) > 0:
+            return next(iter(self.bins.values())).name
+        return self.value.name if self.value is not None else self.contentType
+
     def __eq__(self, other):
         return (
             isinstance(other, SparselyBin)
@@ -612,6 +618,7 @@ class SparselyBin(Factory, Container):
             and self.quantity == other.quantity
             and numeq(self.entries, other.entries)
             and self.bins == other.bins
+            and self._binsType() == other._binsType()
             and self.nanflow == other.nanflow
             and numeq(self.origin, other.origin)
         )
